@@ -148,6 +148,12 @@ def gen_plan(rng, prop, run_index):
                   "kw": rng.random() < 0.3}
             if rng.random() < 0.3:
                 op["shape"] = rng.choice(["extra_first", "extra_last", "no_output"])
+            if tag > 1 and rng.random() < 0.3:
+                # history dependence: repeat an earlier pair exactly, or its values under permuted labels
+                op["like"] = rng.randint(1, tag - 1)
+                if rng.random() < 0.6:
+                    op["rot"] = rng.randint(1, 2)
+                    op["other_y"] = rng.random() < 0.5
             ops.append(op)
             tag += 1
         elif kind == "construct":
@@ -274,7 +280,18 @@ def run_metric_plan(plan):
         try:
             if op["op"] == "call":
                 pk, obj = parties[op["party"] % len(parties)]
-                y, pred = gen_pair(info, H(seed, "pair", op["tag"]))
+                y, pred = gen_pair(info, H(seed, "pair", op.get("like", op["tag"])))
+                if "rot" in op and len(pred) > 1:
+                    # the same values as an earlier call under permuted labels (and possibly another target)
+                    keys = list(pred.keys())
+                    vals = list(pred.values())
+                    r_ = op["rot"] % len(keys)
+                    pred = {k: vals[(j + r_) % len(keys)] for j, k in enumerate(keys)}
+                    if op.get("other_y"):
+                        y = gen_pair(info, H(seed, "pair", op["tag"]))[0]
+                    probe("permuted_repeat")
+                elif "like" in op:
+                    probe("exact_repeat")
                 shape = op.get("shape")
                 if not info["dict_input"] and pk == "wrapper" and shape:
                     # "single-value metrics receive the 'output' entry of the prediction dict": other entries, in any
@@ -300,17 +317,20 @@ def run_metric_plan(plan):
                                     % (y, pred, got, info["name"], fresh.get(), sign), i)
                     if pred != pred_before:
                         return viol("prediction-modified", "prediction dict %r -> %r" % (pred_before, pred), i)
+                    # How often the metric is touched is not part of the property (a correct cache would be fine);
+                    # when it is updated exactly once, it must have been handed the right entry of the prediction.
                     us = [ev for ev in log if ev[0] == "U"]
-                    if len(us) != 1:
-                        return viol("update-count", "%d metric updates for one loss evaluation" % len(us), i)
-                    want_args = _freeze((), {"y_true": y, "y_pred": arg})
-                    got_args = us[0][1]
-                    flat = tuple(v[1] if isinstance(v, tuple) and len(v) == 2 and v[0] in ("y_true", "y_pred") else v
-                                 for v in got_args)
-                    want_flat = tuple(v[1] for v in want_args)
-                    if sorted(map(repr, flat)) != sorted(map(repr, want_flat)):
-                        return viol("metric-arguments", "metric was handed %r, expected (y_true=%r, y_pred=%r)"
-                                    % (got_args, y, arg), i)
+                    if len(us) == 1:
+                        want_args = _freeze((), {"y_true": y, "y_pred": arg})
+                        got_args = us[0][1]
+                        flat = tuple(v[1] if isinstance(v, tuple) and len(v) == 2 and v[0] in ("y_true", "y_pred") else v
+                                     for v in got_args)
+                        want_flat = tuple(v[1] for v in want_args)
+                        if sorted(map(repr, flat)) != sorted(map(repr, want_flat)):
+                            return viol("metric-arguments", "metric was handed %r, expected (y_true=%r, y_pred=%r)"
+                                        % (got_args, y, arg), i)
+                    elif not us:
+                        probe("loss_without_metric_update")
                     res["estimating_steps"] += 1
                 else:
                     x = {"a": op["tag"] * 8 + 1, "b": op["tag"] * 8 + 2}
